@@ -56,7 +56,11 @@ func (s Stack) Apply(opt *Option, profile string) (string, error) {
 
 	res := ""
 	for _, name := range names {
-		stackedProfile := prebuild.RootApparmord.Join(name).MustReadFileAsString()
+		path := prebuild.RootApparmord.Join(name)
+		stackedProfile, err := Run(path, path.MustReadFileAsString())
+		if err != nil {
+			return "", err
+		}
 		m := regRules.FindStringSubmatch(stackedProfile)
 		if len(m) < 2 {
 			return "", fmt.Errorf("no profile found in %s", name)
